@@ -36,6 +36,9 @@ type signatureDTO[S algebra.PrimeFieldElement[S]] struct {
 // NewSignature creates a Signature from r, s values and an optional recovery ID.
 // Both r and s must be non-zero. If provided, v must be in the range [0, 3].
 func NewSignature[S algebra.PrimeFieldElement[S]](r, s S, v *int) (*Signature[S], error) {
+	if utils.IsNil(r) || utils.IsNil(s) {
+		return nil, signatures.ErrFailed.WithMessage("r/s cannot be nil")
+	}
 	if r.IsZero() || s.IsZero() {
 		return nil, signatures.ErrFailed.WithMessage("r/s cannot be zero")
 	}
